@@ -110,7 +110,7 @@ def run(ctx):
     cb = res.clause('C17.b', 'R-TYPESTATE', 'at most one draw, from the seeded instance generator', floor=4)
     cc = res.clause('C17.c', 'R-TAINT', 'decision independent of recording content, metadata and outcome', floor=2)
     cd = res.clause('C17.d', 'R-ORDER', 'precedence: skipped, discard, forcing', floor=4)
-    ce = res.clause('C17.e', 'R-AGREE', 'parameters looked up in one table under one class object', floor=1)
+    ce = res.clause('C17.e', 'R-AGREE', 'parameters looked up in one table under one class object', floor=2)
 
     excm = ctx.excm()
     smp = roles.sampler
@@ -195,7 +195,8 @@ def run(ctx):
                         'sampling decision call site', 'the keep decision receives the metadata / outcome of the run'))
 
     # ---- C17.d precedence on the inlined operation decorator
-    d = rm.run_closure(ctx, 'operation', 'idle', track_attrs=('skipped', 'ignore_enforced_sampling'), key_extra='c17')
+    d = rm.run_closure(ctx, 'operation', 'idle', track_attrs=('skipped', 'ignore_enforced_sampling'),
+                       track_free=('class_function',), key_extra='c17')
     cd.evaluations += d.visited_pairs
     fac, deco, cl = roles.closures['operation']
     bad_skip = None
@@ -250,27 +251,48 @@ def run(ctx):
                             'force flag write (%s)' % variant,
                             'force flag is %s with ignore facts %s from the %s state' % (k, ign, variant), witness=df.path_to(n, s)))
 
-    # ---- C17.e one table, one key
-    keys = {}
+    # ---- C17.e one table, one key: the operation class object (args[0] for class-level operations, its type otherwise)
+    a0 = ('sub', ('free', cl.qualname, cl.node.args.vararg.arg), '0', None)
+    sites = {}
     for node, t, st, st_in in d.at_calls:
         if t.label.startswith('method:get'):
             args, kw = d.arg_values(node.ast, node.frame, st_in)
-            if args:
-                keys.setdefault((node.frame.func.qualname, node.line), set()).add(args[0].name)
-    vals = set()
-    for k, v in keys.items():
-        vals |= v
-    # all lookups use the value of the class object (args[0] or type(args[0]))
-    good = {('sub', ('free', cl.qualname, cl.node.args.vararg.arg), '0', None),
-            ('type-of', ('sub', ('free', cl.qualname, cl.node.args.vararg.arg), '0', None))}
-    ok = len(keys) >= 2 and vals <= good
-    ce.evaluations += len(keys)
-    ce.instance('%d lookups in the per-class parameter table, all keyed by the operation class object' % len(keys), cl.qualname, ok,
-                detail=str(sorted(map(str, vals)))[:200])
-    if not ok:
-        res.add(Finding('C17', 'C17.e', 'R-AGREE', cl.file, cl.qualname, cl.node.lineno, 'parameter table lookup keys',
-                        'the per-class parameters are looked up under %s at %s: skip, rate and ignore-forcing must come from the '
-                        'same table entry (the operation class object)' % (sorted(map(str, vals)), sorted(keys))))
+            cf = st_in.facts.get(('free', fac.qualname, 'class_function'), (None, None))[1]
+            want = a0 if cf is True else ('type-of', a0) if cf is False else None
+            e = sites.setdefault((node.frame.func.qualname, node.line), dict(ok=True, n=0, bad=None, node=node))
+            e['n'] += 1
+            if not args or want is None or args[0].name != want:
+                if e['ok']:
+                    e['ok'] = False
+                    e['bad'] = (st_in, cf, args[0].name if args else None)
+    ce.evaluations += sum(e['n'] for e in sites.values())
+    for k, e in sorted(sites.items()):
+        ce.instance('parameter table lookup in %s keyed by the operation class object' % k[0], e['node'].where(), e['ok'],
+                    detail='%d states' % e['n'])
+        if not e['ok']:
+            st, cf, got = e['bad']
+            node = e['node']
+            res.add(Finding('C17', 'C17.e', 'R-AGREE', node.file, node.frame.func.qualname, node.line, ast.unparse(node.ast),
+                            'the per-class parameters are looked up under `%s` on a path where class_function is %s: skip, rate and '
+                            'ignore-forcing must come from the table entry of the operation class object (args[0] for class-level '
+                            'operations, type(args[0]) otherwise)' % (got, cf),
+                            witness=d.path_to(node, st) if (node.id, st.key()) in d.pred else None))
+    if len(sites) < 2:
+        raise AnalysisError('anchor-lost: fewer than two lookups in the per-class parameter table')
+    # ---- C17.f no leak of forcing into the next run
+    cf_ = res.clause('C17.f', 'R-TYPESTATE', 'force flag cleared at every exit of the operation decorator (no leak into the next run)', floor=1)
+    badf = None
+    for n, s in d.exits:
+        fv = d.field(s, roles.force_flag)
+        if fv is not None and fv.kind != 'false':
+            badf = badf or (n, s, fv.kind)
+    cf_.evaluations += len(d.exits)
+    cf_.instance('force flag false on %d exits' % len(d.exits), roles.start.qualname, badf is None)
+    if badf:
+        n, s, k = badf
+        res.add(Finding('C17', 'C17.f', 'R-TYPESTATE', roles.start.file, roles.start.qualname, roles.start.node.lineno,
+                        'force flag %s at exit' % k, 'forced sampling requested in one run survives into the next',
+                        witness=d.path_to(n, s), exit=rm.exit_kind(n)))
     # and the key agrees with class_function
     return res
 
